@@ -41,7 +41,7 @@ class Gappy:
 def gappy(ns, name=None):
     """Turn a namespace class of staticmethods (``class P: join = staticmethod(...)``)
     into an instance whose missing attributes are model gaps."""
-    return type(name or ns.__name__, (ns, Gappy), {})()
+    return concretely(lambda: type(name or ns.__name__, (ns, Gappy), {})())
 
 
 @dataclasses.dataclass
